@@ -7,6 +7,7 @@ VERIF = os.path.dirname(os.path.dirname(os.path.abspath(__file__)))
 ap = argparse.ArgumentParser()
 ap.add_argument("--repo", default=os.environ.get("VP_RUN_REPO") or os.environ.get("VERIF_REPO") or "/repo")
 ap.add_argument("--tier", default="quick")
+ap.add_argument("--no-replay", action="store_true", help="classify solver counterexamples without the native replay (faster)")
 ap.add_argument("--seeds", default="/verif/seeded")
 ap.add_argument("names", nargs="*")
 a = ap.parse_args()
@@ -25,10 +26,15 @@ for name in sorted(os.listdir(a.seeds)):
         continue
     for prop in props:
         t0 = time.time()
-        p = subprocess.run([os.path.join(VERIF, "check"), prop, "--tier", a.tier], cwd=VERIF, env=env, capture_output=True, text=True)
+        cmd = [os.path.join(VERIF, "check"), prop, "--tier", a.tier] + (["--no-replay"] if a.no_replay else [])
+        p = subprocess.run(cmd, cwd=VERIF, env=env, capture_output=True, text=True)
         viol = [l for l in p.stdout.split("\n") if l.startswith("VIOLATION") or l.strip().startswith("violated in")]
         inc = [l for l in p.stdout.split("\n") if l.startswith("INCONCLUSIVE")]
+        cand = [l for l in p.stdout.split("\n") if l.startswith("CANDIDATE")]
         verdict = {0: "MISSED", 1: "DETECTED", 2: "INCONCLUSIVE"}.get(p.returncode, f"exit {p.returncode}")
+        if a.no_replay and p.returncode == 2 and cand:
+            verdict = "SOLVER-CEX"
+            viol = cand
         rows.append((name, prop, verdict, round(time.time() - t0)))
         print(f"{name:10s} {prop} {verdict:13s} {round(time.time()-t0)}s  " + (viol[0][:200] if viol else (inc[0][:200] if inc else "")), flush=True)
     subprocess.run(["git", "-C", a.repo, "checkout", "-q", "--", "."])
